@@ -266,8 +266,13 @@ pub fn run_space(space: &dyn Space, deadline: Option<Instant>) -> SpaceReport {
 
     let watchdog = || {
         let limit_ms = hang_limit_s() * 1000;
+        let mut ticks = 0u32;
         while !done.load(Ordering::Relaxed) {
-            std::thread::sleep(std::time::Duration::from_millis(250));
+            std::thread::sleep(std::time::Duration::from_millis(2));
+            ticks += 1;
+            if ticks % 128 != 0 {
+                continue;
+            }
             let now = t0.elapsed().as_millis() as u64;
             for (cur, start) in slots.iter() {
                 let c = cur.load(Ordering::Relaxed);
